@@ -134,6 +134,9 @@ def expand_coords(p, n_frames, Hs, exact=False):
             frac = rng.uniform(0, 1, (n, 3))
         elif cls == "spread":
             frac = rng.uniform(-p["spread"], p["spread"], (n, 3))
+        elif cls == "mixed":
+            # most atoms inside the primary cell, the others moved out of it by lattice vectors (unwrapped molecules)
+            frac = rng.uniform(0, 1, (n, 3)) + rng.integers(-p["spread"], p["spread"] + 1, (n, 3)) * (rng.random((n, 1)) < 0.4)
         elif cls == "faces":
             frac = rng.integers(-2, 3, (n, 3)) * 0.5 + rng.uniform(-1e-4, 1e-4, (n, 3)) * rng.integers(0, 2, (n, 3))
         elif cls == "paired":
@@ -146,6 +149,19 @@ def expand_coords(p, n_frames, Hs, exact=False):
                 v = rng.normal(size=3)
                 v *= rng.choice([0.3, 0.8, 0.95, 0.995]) * 0.5 * wmin / np.linalg.norm(v)
                 xyz[k] = xyz[k - 1] + v + rng.integers(-p["spread"], p["spread"] + 1, 3) @ H
+            out[f] = xyz
+            continue
+        elif cls == "paired-inside":
+            # atom 2k uniformly inside the primary cell, atom 2k+1 = atom 2k + a vector whose length straddles
+            # pair_scale * half the smallest width (the caller's cutoff) + (often) a lattice vector: true neighbours of
+            # atoms sitting anywhere in the cell, reachable only through the periodic boundary
+            xyz = rng.uniform(0, 1, (n, 3)) @ H
+            wmin = widths(H).min()
+            for k in range(1, n, 2):
+                v = rng.normal(size=3)
+                v *= rng.choice([0.3, 0.9, 0.999, 1.001, 1.2]) * p.get("pair_scale", 1.0) * 0.5 * wmin / np.linalg.norm(v)
+                sh = rng.integers(-p["spread"], p["spread"] + 1, 3) * (rng.random() < 0.6)
+                xyz[k] = xyz[k - 1] + v + sh @ H
             out[f] = xyz
             continue
         elif cls == "clustered":
